@@ -124,3 +124,22 @@ Proof.
   destruct (select_box_grid xs ys sel _ Sx Sy Lx Ly ltac:(rewrite Ec; exact Gd') Px Py) as [E _].
   split; [rewrite E; exact Ec|exact Gd'].
 Qed.
+
+(* non-vacuity: the 2 x 1 grid on [1/2; 2; 11/4] x [0; 3/2] stored as an allocation (second cell first, a
+   bystander module, the selected module absent from one cell) *)
+Example ex_select_box :
+  let xs := [qc 1 2; qc 2 1; qc 11 4] in let ys := [0%Qc; qc 3 2] in
+  let cms := [(mkCell (qc 2 1) 0%Qc (qc 11 4) (qc 3 2) 0%Qc, [("N"%string, qc 1 4)]);
+              (mkCell (qc 1 2) 0%Qc (qc 2 1) (qc 3 2) 0%Qc, [("N"%string, qc 1 2); ("M"%string, qc 3 4)])] in
+  inc xs /\ inc ys /\ is_grid xs ys (map fst cms) /\ spaced (snap_tol xs) xs /\ spaced (snap_tol ys) ys /\
+  map (cell_of "M") cms =
+    [mkCell (qc 2 1) 0%Qc (qc 11 4) (qc 3 2) 0%Qc; mkCell (qc 1 2) 0%Qc (qc 2 1) (qc 3 2) (qc 3 4)].
+Proof.
+  cbv zeta. split; [|split; [|split; [|split; [|split]]]].
+  - repeat (constructor; [|repeat (constructor; [reflexivity|]); constructor]). constructor.
+  - repeat (constructor; [|repeat (constructor; [reflexivity|]); constructor]). constructor.
+  - unfold is_grid. cbn [map fst grid_cells row_cells app]. apply perm_swap.
+  - cbn [spaced]. repeat split; apply Qcltb_true; vm_compute; reflexivity.
+  - cbn [spaced]. repeat split; apply Qcltb_true; vm_compute; reflexivity.
+  - reflexivity.
+Qed.
